@@ -1,4 +1,5 @@
 import JoblibProofs.Lemmas.ParallelProto
+import JoblibProofs.Lemmas.ParallelSeq
 /-!
 # C16 — Generator outputs: prompt, in the promised order, safe to abandon
 
@@ -267,5 +268,46 @@ yields 0 although batch 1 completed first in the schedule. -/
 example : (genNext (⟨2, false, [1], 0, 2, 1, -1, false, true⟩ : Cfg) 50
       (callStart (⟨2, false, [1], 0, 2, 1, -1, false, true⟩ : Cfg) 50 0 ⟨4, [], -1, []⟩
         ({ sched := [[1], [0]], failIds := [] } : St)).1 {}).2.2 = .value 0 := by decide
+
+
+/-! ### the sequential path (`n_jobs == 1`) -/
+
+section Sequential
+open JoblibModel.ParallelSeq
+
+/-- SEQUENTIAL PROMPTNESS. Every `next()` on a live sequential generator returns without consuming any schedule
+entry (no hook point, no waiting: the task runs in the caller): it yields the next value, or raises, or — only when
+all `n` tasks have been executed — stops; it never hangs. -/
+theorem sequential_promptness (fuel : Nat) {s : St} {g : SGen} (h : SInv s g) :
+    (seqNext (fuel + 2) s g).1.sched = s.sched ∧ (seqNext (fuel + 2) s g).1.now = s.now ∧
+    (seqNext (fuel + 2) s g).2.2 ≠ .hang ∧
+    ((seqNext (fuel + 2) s g).2.2 = .stop → s.nCompleted = s.spec.n) := by
+  have := seqNext_spec fuel h
+  generalize seqNext (fuel + 2) s g = r at this
+  obtain ⟨s', g', o⟩ := r
+  cases o with
+  | value v => exact ⟨this.2.2.2.2.2.sched, this.2.2.2.2.2.now, by simp, by intro hh; cases hh⟩
+  | stop => exact ⟨this.2.2.2.2.2.2.2.2.2.sched, this.2.2.2.2.2.2.2.2.2.now, by simp, fun _ => this.2.2.2.2.2.1⟩
+  | raise e => exact ⟨this.2.2.2.2.2.1.sched, this.2.2.2.2.2.1.now, by simp, by intro hh; cases hh⟩
+  | hang => exact this.elim
+
+/-- SEQUENTIAL OVERLAP RAISES. Calling the object while a (sequential) run is unfinished raises `RuntimeError` and
+changes nothing. -/
+theorem sequential_overlap_raises (c : Cfg) (base : Nat) (spec : CallSpec) (s : St) (h : s.running = true) :
+    seqStart c base spec s = (s, { live := false }, some .runtime) :=
+  seqStart_running c base spec s h
+
+/-- SEQUENTIAL CLOSE LEAVES CLEAN. Closing (or dropping) the live sequential generator clears `_running`, marks the
+generator finished (further `next()` stop), and — in the context of the call it belongs to — leaves the object idle,
+so the next call is accepted. -/
+theorem sequential_close_leaves_clean {base : Nat} {spec : CallSpec} {s₀ s1 s : St} {g : SGen} (hi : Idle s₀)
+    (hS : SStarted base spec s₀ s1) (hk : SKeep s1 s) (hl : g.live = true) :
+    (seqClose s g).1.running = false ∧ (seqClose s g).2.live = false ∧ Idle (seqClose s g).1 ∧
+    (seqClose s g).1.sched = s.sched := by
+  rw [seqClose_live s hl]
+  refine ⟨rfl, rfl, idle_after hi hS (hk.trans ?_) rfl, rfl⟩
+  exact ⟨rfl, rfl, rfl, rfl, rfl, rfl, rfl, rfl, rfl, rfl, rfl, rfl, rfl, rfl⟩
+
+end Sequential
 
 end C16
